@@ -229,6 +229,17 @@ theorem scaling_gamma0 {y w : Type} [Fintype y] [Fintype w] (Z : Matrix y n K) (
   rw [fromBlocks_smul]
   simp only [Matrix.mul_smul, Matrix.smul_mul, smul_add, Matrix.transpose_smul]
 
+/-- **Scaling kind by kind.** The assembled order-0 matrix is linear in the pair (transition part, measurement part):
+scaling the transition stds by `√a` (so `Ω ↦ a·Ω`) and the measurement stds by `√b` gives `a·Γ₀[Σ_w = 0] + b·Γ₀[Ω = 0]`;
+with `a = b = s²` this is the `s²` law, with `b = 1` (or an empty measurement block) only the transition part moves. -/
+theorem scaling_gamma0_by_kind {y w : Type} [Fintype y] [Fintype w] (Z : Matrix y n K) (H : Matrix y w K)
+    (Sw : Matrix w w K) (Om : Matrix n n K) (a b : K) :
+    fromBlocks (a • Om) ((a • Om) * Zᵀ) ((a • Om) * Zᵀ)ᵀ (Z * (a • Om) * Zᵀ + H * (b • Sw) * Hᵀ)
+      = a • fromBlocks Om (Om * Zᵀ) (Om * Zᵀ)ᵀ (Z * Om * Zᵀ)
+        + b • fromBlocks (0 : Matrix n n K) 0 0 (H * Sw * Hᵀ) := by
+  rw [fromBlocks_smul, fromBlocks_smul, fromBlocks_add]
+  simp only [Matrix.mul_smul, Matrix.smul_mul, Matrix.transpose_smul, smul_zero, add_zero]
+
 end Scaling
 
 section Acorr
@@ -380,6 +391,23 @@ theorem signedSquareCorr_spec (g0 g : CMat) (i j : Nat) :
     simp only
     rw [if_neg hn]
 
+
+/-- `rescale_stds(f)` is `rescale_stds(f, kind=…)` over both kinds -/
+theorem rescale_eq_rescaleKinds (s : Sol) (f : Rat) : rescale s f = rescaleKinds s f f := rfl
+
+/-- **Kind by kind = all at once**, in either order, for the cumulative factors of a call sequence; a call whose kind
+selects nothing is modelled by the kind it names and changes only that (possibly empty) block -/
+theorem applyKinds_kind_by_kind (f : Rat) :
+    applyKinds [(.transition, f), (.measurement, f)] = (f, f) ∧
+    applyKinds [(.measurement, f), (.transition, f)] = (f, f) ∧
+    applyKinds [(.all, f)] = (f, f) := by
+  simp [applyKinds, applyKind]
+
+/-- frame condition of one call: a transition-only call leaves the measurement factor alone and vice versa -/
+theorem applyKind_frame (fuw : Rat × Rat) (f : Rat) :
+    (applyKind fuw .transition f).2 = fuw.2 ∧ (applyKind fuw .measurement f).1 = fuw.1 ∧
+    (applyKind fuw .transition f).1 = fuw.1 * f ∧ (applyKind fuw .measurement f).2 = fuw.2 * f := by
+  simp [applyKind]
 
 end Model
 
